@@ -41,6 +41,39 @@ Definition vault_traverse {A} (late : bool) (start en : option Z) (v : runs A) :
   | Some i => trav_objs late s e (s - 1) s (skipn i (cmap v)) (skipn i v)
   end.
 
+(* ---- LAZY consumption.  Row.traverse, traverse_columns and Table.traverse are generators: the caller may edit object k before
+        object k+1 is produced.  For every yielded position the flag says whether the copy was made from the copy handed out
+        just before (true) or from the stored element (false).  [prev] = true is the code before the repair of F112
+        (`cell = cell.clone` inside the loop over a run: every further copy of a run is a copy of the previous copy). ---- *)
+Definition run_flags (prev : bool) (k : nat) : list bool := match k with O => [] | S k' => false :: repeat prev k' end.
+Fixpoint trav_flags {A} (prev : bool) (x en before : Z) (m : list Z) (v : runs A) : list bool :=
+  match m, v with
+  | juska :: m', (n, c) :: v' =>
+      let rep := juska - before in
+      let k := Z.to_nat (Z.min rep (en - x + 1)) in
+      run_flags prev k ++ trav_flags prev (x + Z.of_nat k) en juska m' v'
+  | _, _ => []
+  end.
+Definition vault_flags {A} (prev : bool) (start en : option Z) (v : runs A) : list bool :=
+  let s := Z.max 0 (match start with Some s => s | None => 0 end) in
+  let e := match en with Some e => e | None => hmap (cmap v) - 1 end in
+  match find_idx (cmap v) s with
+  | None => []
+  | Some i => trav_flags prev s e (s - 1) (skipn i (cmap v)) (skipn i v)
+  end.
+(* Table._yield_odf_rows: one copy per repetition, each from the stored row ([prev] = true: the variant that duplicates the copy
+   it has just yielded) *)
+Definition yield_flags (prev : bool) (rs : list (nat * rowx)) : list bool := flat_map (fun r : nat * rowx => run_flags prev (fst r)) rs.
+(* what the caller sees when he applies [f] to every object as soon as it is yielded: an object copied from the previous copy
+   inherits what was done to that copy ([inherit own previous] keeps the object's own stamp and takes the rest from [previous]) *)
+Fixpoint lazy_run {O} (inherit : O -> O -> O) (f : O -> O) (prev : option O) (l : list (bool * O)) : list O :=
+  match l with
+  | [] => []
+  | (derived, o) :: r =>
+      let o' := match derived, prev with true, Some p => inherit o p | _, _ => o end in
+      o' :: lazy_run inherit f (Some (f o')) r
+  end.
+
 (* ---- Row-level getters on a row object: its y, its handle (a wrapper in the table or a detached copy), its cells ---- *)
 Definition live_cell (rh : handle) (j : nat) : handle := match rh with LiveRow i => LiveCell i j | _ => Detached end.
 (* Row.traverse(start, end) / Row.cells / Row.get_cells(coord): copies, x stamped, y = row.y *)
